@@ -111,6 +111,42 @@ def check_span_tree(s, n, lo, hi, strict=True):
     return count
 
 
+def gap_is_blank(s, a, b):
+    """s[a:b] holds only whitespace and comments"""
+    i = a
+    while i < b:
+        c = s[i]
+        if c.isspace():
+            i += 1
+        elif c == '%':
+            while i < b and s[i] != '\n':
+                i += 1
+        else:
+            return False
+    return True
+
+
+def check_macro_extent(s, n):
+    """a macro call node stands for its control sequence and its arguments only: between and after its arguments there is
+    nothing but whitespace and comments (contexts whose arguments are delimited group nodes or single tokens)"""
+    if n is None:
+        return
+    if is_list(n):
+        for x in n:
+            check_macro_extent(s, x)
+        return
+    kids = [c for c in node_children(n) if c is not None and getattr(c, 'pos', None) is not None]
+    if isinstance(n, N.LatexMacroNode):
+        head_end = n.pos + 1 + len(n.macroname)
+        p = head_end
+        for c in kids:
+            require(gap_is_blank(s, p, c.pos), 'macro call node swallows source text that is not one of its arguments')
+            p = c.pos_end
+        require(gap_is_blank(s, p, n.pos_end), 'macro call node extends over source text after its last argument')
+    for c in kids:
+        check_macro_extent(s, c)
+
+
 def check_tiling(s, nodelist):
     """Top-level nodes tile [0, len(s)) exactly and reproduce the input."""
     p = 0
